@@ -173,6 +173,15 @@ func c17Gen(r *core.Rand) (*gtfsrt.FeedMessage, []c17Alert) {
 		}
 		if r.Bool() {
 			ma := &gtfsrt.MercuryAlert{CreatedAt: rgen.U64(1600000000 + uint64(r.Intn(1000000))), UpdatedAt: rgen.U64(1650000000 + uint64(r.Intn(1000000))), AlertType: rgen.S(core.Pick(r, []string{"Delays", "Planned - Part Suspended"}))}
+			if r.Chance(1, 5) {
+				// timestamps at the edges: zero, the last second of year 9999 and beyond it (milliseconds mistaken for seconds, 2^62)
+				x := core.Pick(r, []uint64{0, 1, 253402300799, 253402300800, 1700000000000, 1 << 62})
+				if r.Bool() {
+					ma.CreatedAt = &x
+				} else {
+					ma.UpdatedAt = &x
+				}
+			}
 			if r.Bool() {
 				ma.DisplayBeforeActive = rgen.U64(uint64(r.Intn(7200)))
 			}
@@ -386,6 +395,15 @@ func runC17(c *core.Ctx) {
 				}
 				// metadata
 				wantMeta := opts.AddNyctMetadata && ex.mercury != nil
+				if wantMeta && (ex.mercury.GetCreatedAt() > 253402128000 || ex.mercury.GetUpdatedAt() > 253402128000) {
+					// an instant beyond year 9999 (in whatever zone the process runs in: two days of margin) has no JSON representation; whether a metadata entry is produced for it is not
+					// asserted - the alert itself (presence, cause, effect, everything else) is
+					c.Skip("metadata-for-instants-beyond-year-9999-not-asserted")
+					wantMeta = false
+					if n := len(a.Description); n == len(b.Description)+1 && a.Description[n-1].Language == nyctalerts.MetadataLanguage {
+						want.Description = append(append([]gtfs.AlertText(nil), b.Description...), a.Description[n-1])
+					}
+				}
 				if wantMeta {
 					if len(a.Description) != len(b.Description)+1 {
 						c.Violationf("C17|metadata-missing", detail(), "alert %q: metadata requested and Mercury alert present, but description has %d entries (base %d)", a.ID, len(a.Description), len(b.Description))
